@@ -57,7 +57,7 @@ func vdEnable() {}
 // C33: NewDate accepts exactly the Gregorian dates of the range, builds the documented
 // bit-packed representation, and the accessors return the fields.
 //
-//symgo:harness prop=C33 tier=quick arith=int timeout=300 ttimeout=1500 qtimeout=60000 shards=2 tshards=4 bounds=valid_dates_of_years_1900..2099_(thorough_400..2999),_century_and_month_case-split;days_28..31_of_every_month_of_2023,2024,1900,2000;year_3000_edge;each_field_one_step_outside_its_range_(on_2024-02) outside=years_0..399;fields_far_outside_their_ranges
+//symgo:harness prop=C33 tier=quick arith=int timeout=300 ttimeout=1500 qtimeout=120000 shards=2 tshards=4 bounds=valid_dates_of_years_1900..2099_(thorough_400..2999),_century_and_month_case-split;days_28..31_of_every_month_of_2023,2024,1900,2000;year_3000_edge;each_field_one_step_outside_its_range_(on_2024-02) outside=years_0..399;fields_far_outside_their_ranges
 func VerifC33New() {
 	vdEnable()
 	var y, m, d, h, mi, s, ms int
@@ -185,7 +185,7 @@ func vdWalk(y, m, j int) (y2, m2, off int) {
 // first of the source month, falls into the month j months away, the result is that month's
 // day (day + k - days walked), same time of day. MinusDays inverts it.
 //
-//symgo:harness prop=C33 tier=quick arith=int timeout=300 ttimeout=1700 qtimeout=60000 shards=2 tshards=8 bounds=source_any_valid_date_of_years_400..2999_(month_case-split);day_offsets_landing_in_the_previous,same_or_next_month_(|k|<=61);thorough:_up_to_14_months_away_(|k|<=440) outside=larger_day_offsets;several_offset_fields_at_once;years_0..399
+//symgo:harness prop=C33 tier=quick arith=int timeout=300 ttimeout=1700 qtimeout=120000 shards=2 tshards=8 bounds=source_any_valid_date_of_years_400..2999_(month_case-split);day_offsets_landing_in_the_previous,same_or_next_month_(|k|<=61);thorough:_up_to_14_months_away_(|k|<=440) outside=larger_day_offsets;several_offset_fields_at_once;years_0..399
 func VerifC33PlusDays() {
 	vdEnable()
 	y, m, d, h, mi, s, ms := vdSource()
@@ -247,7 +247,7 @@ var vdBoundaryDates = [][3]int{
 // (With a symbolic date as well the solver does not decide the combined time and calendar
 // normalisation; symbolic dates are covered by VerifC33PlusDays.)
 //
-//symgo:harness prop=C33 tier=quick arith=int timeout=300 ttimeout=1700 qtimeout=60000 shards=2 tshards=8 bounds=5_concrete_boundary_dates_(thorough_27);any_time_of_day;one_of_hours/minutes/seconds/ms_offset_with_the_result_within_+-1_day_(thorough_+-3_days) outside=symbolic_date_together_with_time_offsets_(solver_unknown);several_offset_fields_at_once;larger_offsets
+//symgo:harness prop=C33 tier=quick arith=int timeout=300 ttimeout=1700 qtimeout=120000 shards=2 tshards=8 bounds=5_concrete_boundary_dates_(thorough_27);any_time_of_day;one_of_hours/minutes/seconds/ms_offset_with_the_result_within_+-1_day_(thorough_+-3_days) outside=symbolic_date_together_with_time_offsets_(solver_unknown);several_offset_fields_at_once;larger_offsets
 func VerifC33PlusTime() {
 	vdEnable()
 	nd := 5
@@ -299,7 +299,7 @@ func VerifC33PlusTime() {
 // is y2-y years, or 12*(y2-y)+(m2-m) months with m2 concrete); Gregorian normalisation: day d of
 // month (y2,m2) if that month has it, otherwise the overflow runs into the following month.
 //
-//symgo:harness prop=C33 tier=quick arith=int timeout=300 ttimeout=1700 qtimeout=60000 shards=2 tshards=8 bounds=source_and_target_year_any_of_400..2999;years_offset:_source_month_in_{1,2,3,12}_(thorough_all);months_offset_=_12*(y2-y)+1_from_every_source_month_(thorough:_to_any_target_month) outside=month_offsets_to_other_target_months_in_quick;years_0..399;several_offset_fields_at_once
+//symgo:harness prop=C33 tier=quick arith=int timeout=300 ttimeout=1700 qtimeout=120000 shards=2 tshards=8 bounds=source_and_target_year_any_of_400..2999;years_offset:_source_month_in_{1,2,3,12}_(thorough_all);months_offset_=_12*(y2-y)+1_from_every_source_month_(thorough:_to_any_target_month) outside=month_offsets_to_other_target_months_in_quick;years_0..399;several_offset_fields_at_once
 func VerifC33PlusYearsMonths() {
 	vdEnable()
 	y, m, d, h, mi, s, ms := vdSource()
@@ -350,7 +350,7 @@ func VerifC33PlusYearsMonths() {
 // C33: the julian day number is the reference day number plus a constant, so MinusDays is the
 // difference of reference day numbers for any two dates (years 400..2999, concrete months).
 //
-//symgo:harness prop=C33 tier=quick arith=int timeout=200 ttimeout=900 qtimeout=20000 shards=1 tshards=4 bounds=julian_day_number:_any_valid_date_of_years_400..2999_(month_case-split);difference:_any_two_such_dates_with_months_in_{1,2,3,12}_(thorough_all_months) outside=years_0..399
+//symgo:harness prop=C33 tier=quick arith=int timeout=200 ttimeout=900 qtimeout=120000 shards=1 tshards=4 bounds=julian_day_number:_any_valid_date_of_years_400..2999_(month_case-split);difference:_any_two_such_dates_with_months_in_{1,2,3,12}_(thorough_all_months) outside=years_0..399
 func VerifC33MinusDays() {
 	vdEnable()
 	y, m, d, h, mi, s, ms := vdSource()
@@ -404,7 +404,7 @@ func vdChrono(a, b [8]int) int {
 // C33: Compare orders dates (and timestamps: date, then the extra byte; a plain date counts as
 // extra 0) chronologically; any two valid dates of years 0..3000.
 //
-//symgo:harness prop=C33 tier=quick arith=int timeout=200 qtimeout=20000 shards=1 bounds=any_two_valid_dates_of_years_0..3000,_each_optionally_a_timestamp_with_extra_1..255 outside=none
+//symgo:harness prop=C33 tier=quick arith=int timeout=200 qtimeout=120000 shards=1 bounds=any_two_valid_dates_of_years_0..3000,_each_optionally_a_timestamp_with_extra_1..255 outside=none
 func VerifC33Compare() {
 	vdEnable()
 	y1, m1, d1, h1, mi1, s1, ms1 := vdAny("a_")
@@ -440,7 +440,7 @@ func VerifC33Compare() {
 // hhmm, hhmmss, hhmmssmmm) and a timestamp's text to the same timestamp. Concrete boundary
 // dates, symbolic time of day (the text form depends on the time fields only).
 //
-//symgo:harness prop=C33 tier=quick arith=int timeout=300 qtimeout=20000 shards=2 tshards=4 bounds=2_concrete_dates_(thorough_27);any_time_of_day_in_each_of_the_text_forms;timestamp_extra_1..255 ttimeout=1200 outside=symbolic_date_digits;ParseDate/Format
+//symgo:harness prop=C33 tier=quick arith=int timeout=300 qtimeout=120000 shards=2 tshards=4 bounds=2_concrete_dates_(thorough_27);any_time_of_day_in_each_of_the_text_forms;timestamp_extra_1..255 ttimeout=1200 outside=symbolic_date_digits;ParseDate/Format
 func VerifC33Literal() {
 	vdEnable()
 	nd := 2
@@ -479,7 +479,7 @@ func VerifC33Literal() {
 // C33: AddMs(k), 0 < k < 100, is the date k milliseconds later: on the fast path (no carry out
 // of the millisecond field) and on the fallback path (carry).
 //
-//symgo:harness prop=C33 tier=quick arith=int timeout=300 qtimeout=20000 shards=1 tshards=4 bounds=any_valid_date_of_years_400..2998_(month_case-split);k_1..99 outside=years_0..399
+//symgo:harness prop=C33 tier=quick arith=int timeout=300 qtimeout=120000 shards=1 tshards=4 bounds=any_valid_date_of_years_400..2998_(month_case-split);k_1..99 outside=years_0..399
 func VerifC33AddMs() {
 	vdEnable()
 	y, m, d, h, mi, s, ms := vdSource()
